@@ -1,3 +1,4 @@
 import Verif.Props.C20
 import Verif.Props.C03
 import Verif.Props.C02
+import Verif.Props.C04
